@@ -1,7 +1,7 @@
 LIBS = ["libavoid"]
 HARNESS = "harness/c06.cpp"
 DRIVER_MODE = "c06"
-LEAN_MODULES = ["AdaptaVerif.Props.C06"]
+LEAN_MODULES = ["AdaptaVerif.Props.C06", "AdaptaVerif.Props.C06Tie"]
 LEVEL = "translation_validation"
 LEVEL_TEXT = ("Two parts. (1) PROOF, for all legal histories of any length (Lean 4, no sorry, axioms propext / "
               "Classical.choice / Quot.sound): the router's transaction queue - de-duplication rules of addShape / "
@@ -80,6 +80,16 @@ ASSUMPTIONS = ["shapes are rectangles, interior-disjoint, endpoints in free spac
                "no connection pins / clusters / checkpoints / hyperedges / routing-option changes between transactions"]
 EXPLANATION = ("obligations = theorems of Props/C06.lean; evaluations = histories; every history contributes one scene "
                "tie per API call and one route/cost/graph audit per processing point")
+
+
+def regenerate(ROOT, REPO):
+    """ActionInfo::operator< and the values of enum ActionType are regenerated from actioninfo.{h,cpp} by cpp2lean on
+    every run and proved to be the order Model/ActionQueue sorts by (Props/C06Tie.lean)"""
+    import sys
+    from pathlib import Path
+    sys.path.insert(0, str(Path(ROOT) / "tools" / "cpp2lean"))
+    import jobs
+    return jobs.regenerate(["comparators"], Path(ROOT), Path(REPO))
 
 
 def plan(tier, seed, searching):
